@@ -228,6 +228,17 @@ class Exec:
                     'inputs': keys, 'expected': V.show(exp[i]), 'observed': V.show(o)})
 
 
+def name_override_hazard(g, ovset):
+    """A value supplied through a defined name whose cell holds a formula (an
+    error constant is stored as one)."""
+    tg = {e[1] for e in g.names.values() if e[0] == 'ref'}
+    for i in ovset['ov']:
+        c = g.cells.get(i)
+        if i in tg and c is not None and (c['k'] != 'c' or c['v']['k'] == 'e'):
+            return True
+    return False
+
+
 def range_override_hazard(g, ovset):
     """A whole-range override whose members are not all plain constants: an
     unpopulated member or a member that is a formula (an error constant is
